@@ -2951,6 +2951,12 @@ class ContractionTree:
         """
         if reset:
             self.reset_contraction_indices()
+        else:
+            # keep the current orders, but anything derived from them is
+            # about to become stale as the orders are modified below
+            for node in self.children:
+                for k in ("einsum_eq", "tensordot_axes", "tensordot_perm"):
+                    self.info[node].pop(k, None)
 
         if priority == "flops":
             nodes = sorted(
